@@ -6,6 +6,7 @@
 // by the restart were obtained after the last checkpoint whose rewrite of the main file had completed before the kill (sequential mode);
 // total samples <= budget; after the first completed checkpoint both documented files exist.
 #include "history.hpp"
+#include "c17/c17config.hpp"
 #include <unistd.h>
 #include <sys/wait.h>
 #include <sys/stat.h>
@@ -34,11 +35,11 @@ void check_C17(Src &s, Ctx &ctx) {
     int ksel = (int)s.u16(); static const int fr[4][2] = {{0, 1}, {1, 4}, {1, 2}, {1, 1}}; int fsel = s.pick(4);
     std::string wd = cfg().workdir, casef = wd + "/c17.case", ck = wd + "/c17ckpt", log = wd + "/c17.log", fin = wd + "/c17.final";
     { std::ofstream f(casef, std::ios::binary); f.write((const char *)s.p + s.i, (std::streamsize)(s.n - s.i)); }
-    // the same decoding as engine/c17/c17driver.cpp (for the value model and the budget)
-    SpecOpts so; so.nonnested = false; so.custom = false; so.conformal = false; so.transforms = false; so.min_outs = 1; so.max_outs = 2; so.cap = 30; so.max_dims = 2;
-    GridState st; st.spec = decode_spec(s, so); st.vm.decode(s); if (st.spec.depth > 1) st.spec.depth = 1;
-    make_grid(st.g, st.spec, so.cap);
-    size_t budget = 6 + (size_t)s.pick(20); size_t batch = 1 + (size_t)s.pick(2); bool parallel = s.chance(1, 3); (void)batch;
+    // the same decoding as the driver (engine/c17/c17config.hpp)
+    bool big = cfg().tier == 1 && s.n > 0 && (s.p[s.n - 1] % 12) == 5;   // thorough tier: one case in twelve grows beyond 1000 loaded points
+    if (big) setenv("VERIF_C17_BIG", "1", 1); else unsetenv("VERIF_C17_BIG");
+    GridState st; C17Config cf = c17_decode(s, st, big); size_t budget = cf.budget; bool parallel = cf.parallel;
+    if (big) ctx.label("big-construction");
     s.i = s.n;
     auto cleanup = [&]() { for (auto &p : {ck, ck + "_old", log, fin}) unlink(p.c_str()); };
     // ---- dry run: number of checkpoint operations
@@ -55,6 +56,7 @@ void check_C17(Src &s, Ctx &ctx) {
     cleanup();
     int rc1 = run_driver(drv, shim, casef, ck, log, fin, k, fr[fsel][0], fr[fsel][1]);
     auto l1 = read_lines(log);
+    if (rc1 == 0 && parallel) throw Discard("parallel run issued fewer checkpoint operations than the dry run (schedule dependent): kill index not reached");
     VF_REQUIRE("C17.kill-did-not-happen", rc1 == 137 && !l1.empty() && l1.back() == "KILLED", "expected the injector to kill run 1 at operation " << k << " but it exited with " << rc1);
     std::string killed_op; for (auto it = l1.rbegin(); it != l1.rend(); ++it) if (it->rfind("FS ", 0) == 0) { killed_op = *it; break; }
     ctx.log("kill at operation " + std::to_string(k) + " of " + std::to_string(nops) + ": " + killed_op + " (torn fraction " + std::to_string(fr[fsel][0]) + "/" + std::to_string(fr[fsel][1]) + ")");
